@@ -224,7 +224,12 @@ def _pool_body(tk, tv, ck, cv, rk, rv, t0, dt, req_level, ptk, ptv, legacy, seco
         TL.install(TL.Script({}, TL.Cert("default", (("DNS", "*"),))), "ssl", True)
     try:
         total, connect, read = _val(tk, tv), _val(ck, cv), _val(rk, rv)
-        if legacy:
+        if P.get("plain_none"):
+            # the plain value None ("no timeout at all"), not a Timeout object
+            to = None
+            tk, ck, rk = 1, 1, 1
+            legacy = True            # (no Timeout object of the caller's to look at afterwards)
+        elif legacy:
             # legacy number instead of a Timeout object: same value for connect and read, no total
             to = cv
             tk, ck, rk, rv = 1, 2, 2, cv
@@ -361,6 +366,9 @@ def JOBS(tier):
         {"func": "c19_unit_float", "part": {}, "timeout": t},
         {"func": "c19_invalid", "part": {}, "timeout": t},
     ]
+    for req_level in (False, True):
+        jobs.append({"func": "c19_pool", "part": {"legacy": True, "req_level": req_level, "early": False, "plain_none": True},
+                     "timeout": t, "path_timeout": 60})
     for legacy in (False, True):
         for req_level in (False, True):
             for early in (False, True):
@@ -376,7 +384,7 @@ EVIDENCE = {
     "bounds": {"quick": "unit: total/connect/read each unset|None|any positive int (unbounded), clock samples any ints t0<=t1; floats: "
                         "any finite positive total/read/elapsed; invalid values {int<=0 in -3..0, True, False, str, object}; pool "
                         "level: same symbolic ints through HTTPConnectionPool.urlopen on the in-memory net, pool- vs request-level "
-                        "placement, legacy number, second request on the reused connection, reply already pending when the wait starts "
+                        "placement, legacy number, plain None, second request on the reused connection, reply already pending when the wait starts "
                         "or not; the same for https through an http proxy (TCP connect + CONNECT exchange happen before _make_request)",
                "thorough": "same, larger budget"},
     "outside": ["NaN/inf timeouts", "non-monotone clocks", "Timeout(total=<sentinel>)"],
